@@ -12,6 +12,7 @@ from ..common import VarTuple
 _AnyStrT = TypeVar("_AnyStrT", str, bytes)
 _T1 = TypeVar("_T1")
 _T2 = TypeVar("_T2")
+_T3 = TypeVar("_T3")
 _T1_co = TypeVar("_T1_co", covariant=True)
 _AnyStr_co = TypeVar("_AnyStr_co", str, bytes, covariant=True)
 
@@ -46,6 +47,13 @@ BUILTIN_ORIGIN_TO_TYPEVARS: Mapping[type, VarTuple[TypeVar]] = {
     collections.abc.KeysView: (_T1_co, ),
     collections.abc.ValuesView: (_T1_co, ),
     collections.abc.ItemsView: (_T1_co, _T2),
+    collections.abc.MappingView: (_T1_co, ),
     collections.abc.Mapping: (_T1, _T2),
     collections.abc.MutableMapping: (_T1, _T2),
+    collections.abc.Awaitable: (_T1_co, ),
+    collections.abc.Coroutine: (_T1_co, _T2, _T3),
+    collections.abc.AsyncIterable: (_T1_co, ),
+    collections.abc.AsyncIterator: (_T1_co, ),
+    collections.abc.AsyncGenerator: (_T1_co, _T2),
+    collections.abc.Generator: (_T1_co, _T2, _T3),
 }
